@@ -81,7 +81,7 @@ impl<'a> Lexer<'a> {
                         Some('"') => {
                             self.txt.next();
                             char_data = Some(String::new());
-                            self.state = State::Quote;
+                            self.state = State::Quote { is_list: false };
                         }
                         Some(';') => self.state = State::Comment { is_list: false },
                         Some(ch) if ch.is_whitespace() => {
@@ -116,15 +116,22 @@ impl<'a> Lexer<'a> {
                         }
                     }
                 }
-                State::Quote => {
+                State::Quote { is_list } => {
                     match ch {
                         // end and gobble the '"'
                         Some('"') => {
-                            self.state = State::RestOfLine;
                             self.txt.next();
-                            return Ok(Some(Token::CharData(
-                                char_data.take().unwrap_or_else(|| "".into()),
-                            )));
+                            let char_data = char_data.take().unwrap_or_else(|| "".into());
+                            if is_list {
+                                char_data_vec
+                                    .as_mut()
+                                    .ok_or(LexerError::IllegalState("char_data_vec is None"))?
+                                    .push(char_data);
+                                self.state = State::List;
+                            } else {
+                                self.state = State::RestOfLine;
+                                return Ok(Some(Token::CharData(char_data)));
+                            }
                         }
                         Some('\\') => {
                             Self::push_to_str(&mut char_data, self.escape_seq()?)?;
@@ -178,6 +185,11 @@ impl<'a> Lexer<'a> {
                             Some(v) => Ok(Some(Token::List(v))),
                             None => Err(LexerError::IllegalState("char_data_vec is None")),
                         };
+                    }
+                    Some('"') => {
+                        self.txt.next();
+                        char_data = Some(String::new());
+                        self.state = State::Quote { is_list: true };
                     }
                     Some(ch) if ch.is_whitespace() => {
                         self.txt.next();
@@ -341,7 +353,7 @@ pub(crate) enum State {
     //  Name,              // CharData + '.' + CharData
     Comment { is_list: bool }, // ;.*
     At,                        // @
-    Quote,                     // ".*"
+    Quote { is_list: bool },   // ".*"
     Dollar,                    // $
     EOL,                       // \n or \r\n
     EOF,
